@@ -513,18 +513,20 @@ func (s *Solver) Send(line string) {
 	if s.log != nil {
 		fmt.Fprintln(s.log, line)
 	}
+	if s.incremental && line == "(pop 1)" && s.skipPop {
+		// the primary was restarted inside this frame: there is nothing to pop
+		s.skipPop = false
+		s.frame = s.frame[:0]
+		return
+	}
+	// restart a killed primary BEFORE recording the line (the replay must not contain it: it is sent below)
+	s.ensurePrim()
 	switch {
 	case line == "(reset)":
 		s.frame = s.frame[:0]
 		s.decls = s.decls[:0]
-	case s.incremental && line == "(push 1)":
+	case s.incremental && (line == "(push 1)" || line == "(pop 1)"):
 		s.frame = s.frame[:0]
-	case s.incremental && line == "(pop 1)":
-		s.frame = s.frame[:0]
-		if s.skipPop {
-			s.skipPop = false
-			return
-		}
 	case strings.HasPrefix(line, "(set-option :timeout "):
 		fmt.Sscanf(line, "(set-option :timeout %d)", &s.timeoutMs)
 		s.decls = append(s.decls, line)
@@ -533,7 +535,6 @@ func (s *Solver) Send(line string) {
 	case strings.HasPrefix(line, "(assert "):
 		s.frame = append(s.frame, line)
 	}
-	s.ensurePrim()
 	s.prim.send(line)
 }
 
